@@ -5,10 +5,11 @@
 //!   standin <mode> [repo]            search; prints one JSON line: {"kind":"standin",...} or {"kind":"none","cases":N}
 //!   standin --replay '<json>'        re-runs the recorded case; exit 1 = reproduced
 //!   standin phrases <file> [zeros]   spelled numbers from tools/spell.py (C01, C16)
-//! modes: ident, stream (C02)  dec (C05)  wf (C06)  consist (C07)  thr (C09)  iter (C15)  orule (C18)  ncase (C11)
+//! modes: ident, stream (C02)  dec (C05)  wf (C06)  consist (C07)  thr (C09)  iter (C15)  orule (C18)  ncase (C11)  facade (C13)
 use std::panic::{catch_unwind, AssertUnwindSafe};
 use text2num::word_to_digit::Replace;
-use text2num::{find_numbers, find_numbers_iter, replace_numbers_in_stream, replace_numbers_in_text, text2digits, Language, Occurence, Token};
+use text2num::lang::{Dutch, English, French, German, Italian, Portuguese, Spanish};
+use text2num::{LangInterpreter, find_numbers, find_numbers_iter, replace_numbers_in_stream, replace_numbers_in_text, text2digits, Language, Occurence, Token};
 
 const LANGS: [&str; 7] = ["en", "fr", "es", "pt", "it", "de", "nl"];
 
@@ -147,6 +148,63 @@ fn streams() -> Vec<(&'static str, &'static str)> {
         ("nl", "een twee"),
         ("nl", "een hond zag twintig dertig veertig"),
     ]
+}
+
+/// C13: the same calls through the concrete interpreter type and through the runtime-selectable `Language`
+fn facade_diff<L: LangInterpreter>(concrete: &L, fac: &Language, phrase: &str) -> Option<String> {
+    let (a, b) = (text2digits(phrase, concrete), text2digits(phrase, fac));
+    if format!("{:?}", a) != format!("{:?}", b) {
+        return Some(format!("text2digits({:?}) = {:?} through the concrete type but {:?} through Language", phrase, a, b));
+    }
+    for th in [0.0f64, 10.0] {
+        let (a, b) = (replace_numbers_in_text(phrase, concrete, th), replace_numbers_in_text(phrase, fac, th));
+        if a != b {
+            return Some(format!("replace_numbers_in_text({:?}, threshold {}) = {:?} through the concrete type but {:?} through Language", phrase, th, a, b));
+        }
+    }
+    let ts = toks(phrase);
+    let (a, b) = (find_numbers(ts.clone().into_iter(), concrete, 10.0), find_numbers(ts.into_iter(), fac, 10.0));
+    if occs(&a) != occs(&b) {
+        return Some(format!("find_numbers({:?}, threshold 10) = {:?} through the concrete type but {:?} through Language", phrase, occs(&a), occs(&b)));
+    }
+    None
+}
+fn facade_by_code(code: &str, phrase: &str) -> Option<String> {
+    let fac = lang(code);
+    match code {
+        "en" => facade_diff(&English::new(), &fac, phrase),
+        "fr" => facade_diff(&French::new(), &fac, phrase),
+        "de" => facade_diff(&German::new(), &fac, phrase),
+        "it" => facade_diff(&Italian::new(), &fac, phrase),
+        "es" => facade_diff(&Spanish::new(), &fac, phrase),
+        "nl" => facade_diff(&Dutch::new(), &fac, phrase),
+        _ => facade_diff(&Portuguese::new(), &fac, phrase),
+    }
+}
+/// every word of the language's grammar table (generated from the code's own match arms) plus a few function words
+fn vocabulary(code: &str) -> Vec<String> {
+    let rows = match code {
+        "en" => include_str!("../../../specs/templates/en_rows.json"),
+        "fr" => include_str!("../../../specs/templates/fr_rows.json"),
+        "de" => include_str!("../../../specs/templates/de_rows.json"),
+        "it" => include_str!("../../../specs/templates/it_rows.json"),
+        "es" => include_str!("../../../specs/templates/es_rows.json"),
+        "nl" => include_str!("../../../specs/templates/nl_rows.json"),
+        _ => include_str!("../../../specs/templates/pt_rows.json"),
+    };
+    let v: serde_json::Value = serde_json::from_str(rows).unwrap_or(serde_json::Value::Null);
+    let mut out: Vec<String> = v.as_array().map(|a| a.iter().filter_map(|r| r["word"].as_str().map(|s| s.to_string())).collect()).unwrap_or_default();
+    let extra: &[&str] = match code {
+        "en" => &["a", "an", "the", "and", "point", "o", "dog", ","],
+        "fr" => &["un", "une", "le", "et", "virgule", "chien", ","],
+        "de" => &["ein", "eine", "der", "und", "komma", "hund", ","],
+        "it" => &["un", "una", "il", "e", "virgola", "cane", ","],
+        "es" => &["un", "una", "el", "y", "coma", "perro", ","],
+        "nl" => &["een", "de", "en", "komma", "hond", ","],
+        _ => &["um", "uma", "o", "e", "vírgula", "cão", ","],
+    };
+    for e in extra { if !out.iter().any(|w| w == e) { out.push(e.to_string()); } }
+    out
 }
 
 struct Case {
@@ -534,6 +592,30 @@ fn cases(mode: &str) -> Vec<Case> {
                         None
                     }),
                 });
+            }
+        }
+        // C13: facade == concrete type on every word of the grammar tables alone and on every ordered pair of them (plus function words)
+        "facade" => {
+            for code in LANGS {
+                let voc = vocabulary(code);
+                for (c, p) in streams() {
+                    if c != code { continue }
+                    let (c, p) = (c.to_string(), p.replace(['|', '!'], ""));
+                    out.push(Case { descr: serde_json::json!({"mode":"facade","lang":c,"text":p}), run: guard(move || facade_by_code(&c, &p)) });
+                }
+                for w1 in voc.clone() {
+                    let (c, voc2) = (code.to_string(), voc.clone());
+                    out.push(Case {
+                        descr: serde_json::json!({"mode":"facade","lang":code,"first_word":w1}),
+                        run: guard(move || {
+                            if let Some(m) = facade_by_code(&c, &w1) { return Some(m); }
+                            for w2 in &voc2 {
+                                if let Some(m) = facade_by_code(&c, &format!("{} {}", w1, w2)) { return Some(m); }
+                            }
+                            None
+                        }),
+                    });
+                }
             }
         }
         _ => {}
